@@ -1488,7 +1488,7 @@ impl Prop for C11 {
         }
     }
     fn rule() -> &'static str {
-        "program has >=2 methods of >=2 streaming kinds, or a keyword/odd identifier (underscore, digit, lower-case first letter, acronym; manual builder: route name drawn independently of the Rust name), or no/nested package; Regenerate counts when >=2 committed files were compared Manual methods carry one of four codec paths each: client and server construct exactly the method's codec."
+        "program has >=2 methods of >=2 streaming kinds, or a keyword/odd identifier (underscore, digit, lower-case first letter, acronym; manual builder: route name drawn independently of the Rust name), or no/nested package; Regenerate counts when >=2 committed files were compared Manual methods carry one of four codec paths each: client and server construct exactly the method's codec. Builder options equal to the documented defaults are left to the builders' Default in half of the cases; build_transport is none/true/false."
     }
     fn assumptions() -> Vec<String> {
         vec![
